@@ -25,6 +25,7 @@ E1 = {
     'C14': 'harness.c14_node',
     'C15': 'harness.c15_seasoning',
     'C16': 'harness.c16_require',
+    'C18': 'harness.c18_alias',
 }
 E2 = {
 }
